@@ -455,6 +455,11 @@ func (mr *msgReader) read(p []byte) (int, error) {
 
 		n, err := mr.c.readFramePayload(mr.ctx, p)
 		if err != nil {
+			// The bytes read before the error are returned and so must be unmasked too.
+			if !mr.c.client {
+				mr.maskKey = mask(p[:n], mr.maskKey)
+			}
+			mr.payloadLength -= int64(n)
 			return n, err
 		}
 
